@@ -25,9 +25,10 @@ def run(ctx):
     # decision (the variant that decides under the lock and removes afterwards loses a spent bucket)
     ctx.exhaustive("LimiterStep", "LimiterStep_MC", timeout=300)
     ctx.extra["tlaps_obligations_LimiterStepProof"] = vf.tlapm("LimiterStepProof", deps=("LimiterStep",))
-    sp = vf.tlc("LimiterStep", cfg="LimiterStep_split", timeout=300)
-    if sp.ok or sp.violated != "Inv_C15_BurstBound":
-        raise vf.MachineryError("sensitivity run LimiterStep_split was not rejected")
+    for vcfg in ("LimiterStep_split", "LimiterStep_retrydel"):
+        sp = vf.tlc("LimiterStep", cfg=vcfg, timeout=300)
+        if sp.ok or sp.violated != "Inv_C15_BurstBound":
+            raise vf.MachineryError("sensitivity run %s was not rejected" % vcfg)
     b = vf.tlc("Limiter_MC", cfg="Limiter_MC_gcbug", timeout=600)
     if b.ok or b.violated != "Inv_C15_Budget":
         raise vf.MachineryError("sensitivity run did not reject the collection of buckets that have not refilled")
